@@ -97,6 +97,30 @@ def check_item(case):
         after = {k: getattr(tr, k) for k in ALL14}
         if after != before:
             raise Fail("re-referencing modified the catalogue constant itself", expected=before, observed=after)
+        # a re-referenced set is a set like any other: re-referenced again (back to the catalogue epoch, on to a third epoch, and
+        # its reverse on to a third epoch) it still keeps labels and rates and is the catalogue set brought to that epoch
+        d3 = d + datetime.timedelta(days=1461)
+        for what, src, dd, sgn in (("back to the catalogue epoch", out, tr.ref_epoch, 1.0), ("on to a third epoch", out, d3, 1.0),
+                                   ("reversed and on to a third epoch", -out, d3, -1.0)):
+            try:
+                o2 = src + dd
+            except Exception as e:
+                raise Fail("re-referencing a set that is itself the result of a re-referencing raised %s: %s" % (type(e).__name__, e),
+                           observed={"name": case["name"], "epoch": case["epoch"], "second": what}, bucket="second re-referencing")
+            labels = (tr.from_datum, tr.to_datum) if sgn > 0 else (tr.to_datum, tr.from_datum)
+            if o2 is None or (o2.from_datum, o2.to_datum) != labels or o2.ref_epoch != dd:
+                raise Fail("a second re-referencing (%s) lost the direction labels / the new epoch" % what, expected=(labels, dd),
+                           observed=None if o2 is None else (o2.from_datum, o2.to_datum, o2.ref_epoch), bucket="second re-referencing")
+            dt2 = (dd - tr.ref_epoch).days / 365.25
+            for k, r in zip(TR.P7, TR.R7):
+                if getattr(o2, r) != sgn * before[r]:
+                    raise Fail("a second re-referencing (%s) changed a rate" % what, expected={r: sgn * before[r]},
+                               observed={"name": case["name"], r: getattr(o2, r)}, bucket="second re-referencing")
+                want = sgn * (before[k] + before[r] * dt2)
+                if abs(getattr(o2, k) - want) > 2e-8 + 1e-8 * abs(before[r]) * 4:
+                    raise Fail("a second re-referencing (%s) is not the catalogue set brought to that epoch (8 decimals per step)" % what,
+                               expected={k: want}, observed={"name": case["name"], "epoch": case["epoch"], k: getattr(o2, k)},
+                               bucket="second re-referencing")
         return
     if kind == "triple":
         ab, bc, ac = T[case["ab"]], T[case["bc"]], T[case["ac"]]
